@@ -40,8 +40,20 @@ func intTaint(v ssa.Value, seen map[ssa.Value]bool) (bool, string) {
 			return true, w
 		}
 		return intTaint(x.Y, seen)
+	case *ssa.FreeVar:
+		return intTaint(resolveCell(x), seen)
+	case *ssa.Alloc:
+		for _, st := range cellStores(x) {
+			if t, w := intTaint(st.Val, seen); t {
+				return true, w
+			}
+		}
 	case *ssa.UnOp:
 		if x.Op == token.MUL { // load
+			switch x.X.(type) {
+			case *ssa.Alloc, *ssa.FreeVar:
+				return intTaint(x.X, seen)
+			}
 			if fa, ok := x.X.(*ssa.FieldAddr); ok {
 				if st := namedOf(fa.X.Type()); st != nil && strings.HasSuffix(st.Obj().Name(), "Options") {
 					fld := st.Underlying().(*types.Struct).Field(fa.Field)
@@ -194,7 +206,7 @@ func lenControls(c *Ctx, r *Report, rule string) {
 	p := c.Ctl
 	var diff []string
 	n := 0
-	for _, name := range []string{"GoodClamp", "BadNoClamp", "GoodMinHelper", "GoodFirstByte", "BadFirstByte", "GoodDisjunction"} {
+	for _, name := range []string{"GoodClamp", "BadNoClamp", "GoodMinHelper", "GoodFirstByte", "BadFirstByte", "GoodDisjunction", "GoodSwitch", "GoodCell"} {
 		fn := p.Func("", "", name)
 		for _, s := range LenSinks(p, p.SSAFunc(fn)) {
 			t, _ := sinkTaint(s, true)
@@ -208,7 +220,7 @@ func lenControls(c *Ctx, r *Report, rule string) {
 			}
 		}
 	}
-	r.Check(len(diff) == 0 && n >= 7, rule, r.Key(rule, nil, "engine-control", "E3-lenprove"), token.NoPos,
+	r.Check(len(diff) == 0 && n >= 10, rule, r.Key(rule, nil, "engine-control", "E3-lenprove"), token.NoPos,
 		fmt.Sprintf("length prover decided all %d control sinks as expected (proves the guarded ones, fails the unguarded ones)", n),
 		fmt.Sprintf("length prover control mismatch (checker defect): n=%d %v", n, diff))
 }
